@@ -117,6 +117,7 @@ const RES: [&str; 3] = ["KA", "KB", "VR"];
 const STY: [&str; 4] = ["i", "t", "ma", "mb"];
 
 pub fn run(seed: u64, n: usize) -> Vec<String> {
+  std::panic::set_hook(Box::new(|_| {}));
   let mut lines = Vec::new();
   for idx in 0..n {
     let mut rng = StdRng::seed_from_u64(seed.wrapping_mul(7919).wrapping_add(idx as u64));
@@ -129,7 +130,8 @@ pub fn run(seed: u64, n: usize) -> Vec<String> {
         let r = RES[rng.gen_range(0..RES.len())];
         let s = STY[rng.gen_range(0..STY.len())];
         let v = rng.gen_range(0..4);
-        let res = match r { "KA" => typed::<KA>(&mut pie, op, s, v), "KB" => typed::<KB>(&mut pie, op, s, v), _ => typed::<Res<0>>(&mut pie, op, s, v) };
+        let res = std::panic::catch_unwind(std::panic::AssertUnwindSafe(|| match r { "KA" => typed::<KA>(&mut pie, op, s, v), "KB" => typed::<KB>(&mut pie, op, s, v), _ => typed::<Res<0>>(&mut pie, op, s, v) }))
+          .unwrap_or(json!("PANIC"));
         lines.push(json!({"ev":"typed","op":op,"r":r,"s":s,"v":v,"res":tla(&res)}).to_string());
       } else {
         let op = MAPOPS[rng.gen_range(0..MAPOPS.len())];
@@ -138,7 +140,8 @@ pub fn run(seed: u64, n: usize) -> Vec<String> {
         let v = rng.gen_range(-1..4i64);
         let v = if op == "mstamp_writer" { v } else { v.max(0) };
         let s = rng.gen_range(-1..4i64);
-        let res = if r == "KA" { map_a_ops(&mut pie, op, k, v, s) } else { map_b_ops(&mut pie, op, k, v, s) };
+        let res = std::panic::catch_unwind(std::panic::AssertUnwindSafe(|| if r == "KA" { map_a_ops(&mut pie, op, k, v, s) } else { map_b_ops(&mut pie, op, k, v, s) }))
+          .unwrap_or(json!("PANIC"));
         lines.push(json!({"ev":"mapop","op":op,"r":r,"k":k,"v":v,"s":s,"res":tla(&res)}).to_string());
       }
     }
